@@ -180,6 +180,8 @@ type State struct {
 	NoSched   bool
 	NeedSched bool
 	PoolReuse bool
+	ConcreteClock bool
+	ClockTick int64
 	narrowCache map[int]int
 	facts    map[int]bool
 	factsVer int
@@ -213,7 +215,7 @@ func (st *State) fork() *State {
 	n := &State{
 		id: stateSeq, nextObj: st.nextObj, Cur: st.Cur,
 		Steps: st.Steps, SymBr: st.SymBr, PanicLbl: st.PanicLbl, Depth: st.Depth, Preempts: st.Preempts,
-		LastNow: st.LastNow, Epoch: st.Epoch, NoSched: st.NoSched, NeedSched: st.NeedSched, PoolReuse: st.PoolReuse,
+		LastNow: st.LastNow, Epoch: st.Epoch, NoSched: st.NoSched, NeedSched: st.NeedSched, PoolReuse: st.PoolReuse, ConcreteClock: st.ConcreteClock, ClockTick: st.ClockTick,
 	}
 	// the parent also needs a new id so that neither mutates shared objects in place
 	stateSeq++
